@@ -24,3 +24,21 @@ Definition mutex_ok (ts : list athread) : Prop :=
 (* what table_ok establishes for every thread that runs after the constructor returned *)
 Definition disciplined (ts : list athread) : Prop :=
   forall t, In t ts -> at_guarded t = true -> holds t = true.
+
+(* ---- several locks: the Eraser lockset condition (server structs, C14) ----------------
+   Gen/ServerFieldAccess.v lists, for every access to a guarded field of the server's
+   mutex-bearing structs, the set of lock classes held on every path.  The table is accepted
+   when every field has a COMMON lock: one class held at all of its (non-exempt) accesses. *)
+Definition access2 := (string * string * string * bool * list string * bool)%type.
+Definition a2_field (a : access2) : string := let '(f, _, _, _, _, _) := a in f.
+Definition a2_held (a : access2) : list string := let '(_, _, _, _, h, _) := a in h.
+Definition a2_exempt (a : access2) : bool := let '(_, _, _, _, _, e) := a in e.
+
+Definition mem_str (s : string) (l : list string) : bool := existsb (String.eqb s) l.
+
+(* lock class cls is held at every non-exempt access of field f *)
+Definition guards (cls f : string) (t : list access2) : bool :=
+  forallb (fun a => negb (String.eqb (a2_field a) f) || a2_exempt a || mem_str cls (a2_held a)) t.
+
+Definition lockset_ok (t : list access2) : bool :=
+  forallb (fun a => a2_exempt a || existsb (fun cls => guards cls (a2_field a) t) (a2_held a)) t.
